@@ -469,6 +469,23 @@ func (o *OracleC12) AfterBlock(c *Chain, b *BlockCtx) []*Violation {
 		if p.V != nil && d.V != nil && p.V.VoteResult != disputetypes.VoteResult_NO_TALLY && d.V.VoteResult != p.V.VoteResult {
 			out = append(out, o.v(b.H, "lifecycle", "Votes", "result-changed", "dispute %d: recorded result changed from %s to %s", id, p.V.VoteResult, d.V.VoteResult))
 		}
+		// a round that has been superseded by a new round (which existed already at the end of the previous block) is
+		// history: unresolved -> new round is the only way on, it is never resolved or executed on its own
+		superseded := false
+		for _, id2 := range o.t.ids() {
+			if id2 > id && o.t.rootOf[id2] == o.t.rootOf[id] {
+				if _, existed := o.t.prev[id2]; existed {
+					superseded = true
+				}
+			}
+		}
+		if superseded {
+			o.count("superseded_rounds_watched")
+			pe, ce := p.V != nil && p.V.Executed, d.V != nil && d.V.Executed
+			if p.D.DisputeStatus != d.D.DisputeStatus || pe != ce {
+				out = append(out, o.v(b.H, "lifecycle", "Disputes", "superseded-round-moved", "dispute %d has been superseded by a later round, yet it moved %s -> %s (executed %v -> %v) in block %d", id, p.D.DisputeStatus, d.D.DisputeStatus, pe, ce, b.H))
+			}
+		}
 	}
 	// ---- votes cast in this block
 	curVoter := map[string]disputetypes.Voter{}
